@@ -1,15 +1,25 @@
 /-
 C04 — compiling glyphs to Type 2 charstrings preserves outline, hints and width.
 
-Proved here: the number encoder (`encodeNumber`, cff/t2encode.go:487) against the ONE Type 2
-interpreter of C05 (any quirk setting, so in particular the specification).  The edge proposals of the
-optimising encoder and the header assembly are not modelled yet: for them the property is checked on
-the real code by the D stream `t2.rt` (specification interpreter on the bytes the Go encoder emits).
+Everything of `(*Glyph).encodeCharString` (cff/t2encode.go) is modelled (Model/T2Encode, T2Compile) and
+proved against the ONE Type 2 interpreter of C05 in its specification configuration (`Spec.T2.interp`):
+* numbers: `C04_number_partial`, `C04_operand_decodes`, `C04_no_accumulation` (defect #20: `C04_number_bigstep_fails`);
+* the optimiser: every proposed edge and every path of proposed edges (`C04_edge_sound`, `C04_edge_bytes`,
+  `C04_path_sound`; the shortest-path routine is an untrusted oracle);
+* header: width operand, stem chunks (24 pairs, 23 + width), hstem/vstem vs hstemhm/vstemhm, the omitted
+  vstemhm before a leading mask (`C04_header`, `C04_chunk_sizes`, `C04_stack_bound`); masks (`C04_mask`);
+* the whole charstring of every well-formed glyph: `C04_glyph_sound`, `C04_glyph_roundtrip` (same commands,
+  every coordinate within 2⁻¹⁷ at any index — `C04_path_no_accumulation` —, same masks, every stem edge within
+  2⁻¹⁷ at any index — `C04_stems_no_accumulation`, after the repair of finding C04-stemaccum —, same width),
+  `C04_endchar`.
+Model and code are tied by the V streams `t2.encnum/encargs/edges/asm`; the D stream `t2.rt` runs the
+specification interpreter on the bytes the Go encoder emits.
 A float64 argument is the dyadic rational `n / 2^k`; values are in 2⁻¹⁶ units.
 -/
 import SfntV.Proofs.T2Encode
 import SfntV.Proofs.T2Path
 import SfntV.Proofs.T2Glyph
+import SfntV.Proofs.T2GlyphFull
 
 namespace SfntV.Props.C04
 open SfntV SfntV.T2 SfntV.T2Enc
@@ -181,12 +191,257 @@ theorem C04_width (env : T2.Env) (K : Nat) (w : Int) (l : List EnCmd) :
   · have : (w != env.defaultWidth * 2 ^ (K - 16)) = true := by simpa using hw
     simp [startState, this, hw, widthDone, T2.St.init]
 
+/-! ### header (width, stem chunks, hstemhm/vstemhm, implicit vstem), masks, the whole glyph -/
+
+/-- Every successful interpreter step starts from a stack of at most 48 operands: a `Reaches` chain
+(all theorems below) therefore never holds more than 48 operands when an operand or operator is read;
+operator steps of the specification interpreter (`strict`) fail on an illegal operand count. -/
+theorem C04_stack_bound (q : Quirks) (env : T2.Env) (s : St) (b : Nat) (rest : List Nat) (r : Res)
+    (h : step q env s (b :: rest) = .ok r) : s.stack.length ≤ 48 := by
+  by_cases hov : s.stack.length > Gen.t2maxStack
+  · simp [step, hov] at h
+  · rw [maxStack_eq] at hov; omega
+
+/-- Header. For EVERY glyph (any width, any number of hstem/vstem pairs — beyond 24 pairs the lists are
+cut into chunks of at most 24 pairs = 48 operands, 23 pairs when the width operand shares the first
+chunk —, masks present or not, a mask as first command or not) for which `encodeCharString` yields
+bytes: the bytes are header ++ path section `pb`, and the specification interpreter steps from its
+initial state through the header (`Reaches`: every step succeeds, so no stack overflow and every stem
+operator has a legal, even, operand count ≥ 2) to a state `sHdr` in front of `pb` such that
+
+* `sHdr` is the header state `hdrState` (all chunks declared by hstem/vstem, or hstemhm/vstemhm if the
+  glyph has masks), or — first command is a mask and there are vstems, so the encoder omitted the last
+  vstemhm — the operands of the last vstem chunk are still on the stack and executing vstemhm there
+  would give `hdrState` (`ListEnd`; `exec_mask_implicit` shows the mask operator does exactly that);
+* in `hdrState`: nothing drawn yet, the width is the default width if `w` equals it, else nominal
+  width + the encoded operand; the declared hstems/vstems are `decStems` of the operand chunks (running
+  sums of the encoded deltas, restarting at 0 in every chunk — as the encoder restarts `prev`), exactly
+  as many edges as the glyph has.
+
+Hypotheses: every encoded operand is read back (`Decodes`: |value| ≤ 32767, finding C04-bigstep). -/
+theorem C04_header (env : T2.Env) (K : Nat) (w : Int) (hs vs : List Int) (cmds : List InCmd)
+    (paths : List (List (Nat × T2.Op))) (bytes : List Nat)
+    (h : encodeCharString K w hs vs cmds env.defaultWidth env.nominalWidth paths = some bytes)
+    (hw : w ≠ env.defaultWidth * 2 ^ (K - 16) → Decodes (encNum (w - env.nominalWidth * 2 ^ (K - 16)) K))
+    (hdh : ∀ c ∈ hChunks env K w hs, ∀ a ∈ c, Decodes a)
+    (hdv : ∀ c ∈ vChunks env K w hs vs, ∀ a ∈ c, Decodes a) :
+    ∃ pb sHdr, encodePaths (encodeArgs K cmds) paths = some pb ∧
+      Reaches strict env (St.init env) bytes sHdr pb ∧
+      ListEnd env true (maskFirst cmds) (hState env K w hs) (vChunks env K w hs vs) sHdr ∧
+      (hdrState env K w hs vs).cmds = [] ∧ (hdrState env K w hs vs).hasMoved = false ∧
+      (widthDone env (hdrState env K w hs vs)).width =
+        (if w = env.defaultWidth * 2 ^ (K - 16) then env.defaultWidth
+         else (encNum (w - env.nominalWidth * 2 ^ (K - 16)) K).val + env.nominalWidth) ∧
+      (hdrState env K w hs vs).hstem = decStems (hChunks env K w hs) ∧
+      (hdrState env K w hs vs).vstem = decStems (vChunks env K w hs vs) ∧
+      (decStems (hChunks env K w hs)).length = hs.length ∧
+      (decStems (vChunks env K w hs vs)).length = vs.length := by
+  obtain ⟨pb, sHdr, hp, hevh, hevv, hreach, hend⟩ := header_reaches env K w hs vs cmds paths bytes h hw hdh hdv
+  obtain ⟨x1, x2, x3, x4, x5, x6⟩ := hdrState_fields env K w hs vs
+  have hex1 : widthExtra env K w ≤ 1 := by unfold widthExtra; split <;> omega
+  exact ⟨pb, sHdr, hp, hreach, hend, x2, x1, x6, x3, x4,
+    decStems_length K _ _ hs (by omega) hevh hex1,
+    decStems_length K _ _ vs (by omega) hevv (by split <;> omega)⟩
+
+/-- Chunking of the stem lists (part of `C04_header`): every chunk of the hstem list and of the vstem list
+has an even number ≥ 2 of operands, at most 48 — a TN5177-legal operand count for the four stem operators —
+and the first chunk shares the 48-entry stack with the width operand if one is pending (23 pairs + width).
+Holds for every stem list of even length, however long (0 … 96 pairs and beyond). -/
+theorem C04_chunk_sizes (env : T2.Env) (K : Nat) (w : Int) (hs vs : List Int)
+    (hh : hs.length % 2 = 0) (hv : vs.length % 2 = 0) :
+    (∀ c ∈ hChunks env K w hs ++ vChunks env K w hs vs, 2 ≤ c.length ∧ c.length % 2 = 0 ∧ c.length ≤ 48 ∧
+      Spec.T2.legalCount .hstem c.length = true ∧ Spec.T2.legalCount .vstemhm c.length = true) ∧
+    (∀ c t, hChunks env K w hs = c :: t → c.length + widthExtra env K w ≤ 48) ∧
+    (∀ c t, hs = [] → vChunks env K w hs vs = c :: t → c.length + widthExtra env K w ≤ 48) := by
+  have hex1 : widthExtra env K w ≤ 1 := by unfold widthExtra; split <;> omega
+  obtain ⟨a1, a2⟩ := stemChunks_sizes K (hs.length + 1) (widthExtra env K w) hs (by omega) hh hex1
+  obtain ⟨b1, b2⟩ := stemChunks_sizes K (vs.length + 1) (if hs.length = 0 then widthExtra env K w else 0) vs
+    (by omega) hv (by split <;> omega)
+  refine ⟨?_, a2, ?_⟩
+  · intro c hc
+    rcases List.mem_append.mp hc with hc | hc
+    · exact a1 c hc
+    · exact b1 c hc
+  · intro c t hnil hct
+    subst hnil
+    have := b2 c t hct
+    simpa using this
+
+/-- Masks inside the path section: from any state with an empty stack (or only the pending width), at
+least one declared stem, after the hint section has begun, the operator hintmask/cntrmask followed by
+exactly ⌈nStems/8⌉ data bytes is stepped over; the decoded glyph gets the mask command with exactly
+these bytes. -/
+theorem C04_mask (env : T2.Env) (s : St) (cn : Bool) (bs rest : List Nat) (hp : PendOK s)
+    (hme : s.moveErr = false) (hst : 1 ≤ s.stage) (hn : 1 ≤ nStems s)
+    (hb : bs.length = (nStems s + 7) / 8) (hrest : 0 < rest.length) :
+    Reaches strict env s (Spec.T2.opBytes (maskOp cn) ++ bs ++ rest)
+      (drawCmd strict (widthDone env s) (.mask cn bs)) rest :=
+  mask_reaches env s cn bs rest hp hme hst hn hb hrest
+
+/-- Whole charstring, every well-formed glyph. `GlyphWF` (decidable): sub-paths start with a moveto; every
+mask has exactly ⌈nStems/8⌉ bytes and then there is at least one stem — the glyph descriptions a Type 2
+charstring can represent at all (the encoder does not validate this: observed on the real code, it
+emits charstrings the decoder rejects or reads as a different glyph).  For every such glyph whose
+encoded operands are all read back (`Decodes`, `CmdDecodes`: values within ±32767, finding C04-bigstep)
+and EVERY choice of edge paths for which `encodeCharString` yields bytes, the specification interpreter
+returns — no error, hence never more than 48 operands and only legal operand counts, ending with endchar
+— the glyph drawn by the encoded commands from the header state. -/
+theorem C04_glyph_sound (env : T2.Env) (K : Nat) (w : Int) (hs vs : List Int) (cmds : List InCmd)
+    (paths : List (List (Nat × T2.Op))) (bytes : List Nat)
+    (h : encodeCharString K w hs vs cmds env.defaultWidth env.nominalWidth paths = some bytes)
+    (hwf : GlyphWF hs vs cmds = true)
+    (hdec : ∀ c ∈ encodeArgs K cmds, CmdDecodes c)
+    (hw : w ≠ env.defaultWidth * 2 ^ (K - 16) → Decodes (encNum (w - env.nominalWidth * 2 ^ (K - 16)) K))
+    (hdh : ∀ c ∈ hChunks env K w hs, ∀ a ∈ c, Decodes a)
+    (hdv : ∀ c ∈ vChunks env K w hs vs, ∀ a ∈ c, Decodes a) :
+    Spec.T2.interp env bytes =
+      .ok (drawCmds strict (widthDone env (hdrState env K w hs vs)) (encodeArgs K cmds)).glyph :=
+  glyph_sound env K w hs vs cmds paths bytes h hwf hdec hw hdh hdv
+
+/-- `C04_endchar`: the program always ends the glyph — the path section ends with the endchar operator
+and (by `C04_glyph_sound`) the interpreter reaches it: its only normal exit. -/
+theorem C04_endchar (K : Nat) (cmds : List InCmd) (paths : List (List (Nat × T2.Op))) (pb : List Nat)
+    (h : encodePaths (encodeArgs K cmds) paths = some pb) :
+    ∃ pre, pb = pre ++ Spec.T2.opBytes .endchar :=
+  encodePaths_endchar _ _ _ h
+
+/-- The glyph `C04_glyph_sound` returns: the width (default, or nominal + operand), exactly the decoded
+hstem and vstem lists of the header, and the drawn commands. -/
+theorem C04_glyph_fields (env : T2.Env) (K : Nat) (w : Int) (hs vs : List Int) (l : List EnCmd) :
+    (drawCmds strict (widthDone env (hdrState env K w hs vs)) l).glyph.width =
+      (if w = env.defaultWidth * 2 ^ (K - 16) then env.defaultWidth
+       else (encNum (w - env.nominalWidth * 2 ^ (K - 16)) K).val + env.nominalWidth) ∧
+    (drawCmds strict (widthDone env (hdrState env K w hs vs)) l).glyph.hstem = decStems (hChunks env K w hs) ∧
+    (drawCmds strict (widthDone env (hdrState env K w hs vs)) l).glyph.vstem = decStems (vChunks env K w hs vs) := by
+  obtain ⟨h1, h2, h3⟩ := drawCmds_frame strict (widthDone env (hdrState env K w hs vs)) l
+  obtain ⟨x1, x2, x3, x4, x5, x6⟩ := hdrState_fields env K w hs vs
+  obtain ⟨f1, f2, f3, f4, f5, f6, f7, f8⟩ := widthDone_fields env (hdrState env K w hs vs)
+  simp only [T2.St.glyph, h1, h2, h3, x6, f6, f7, x3, x4]
+  exact ⟨trivial, trivial, trivial⟩
+
 /-- the full statement, with stem hints and masks (not proved; checked by the D stream `t2.rt`) -/
 def C04_glyph_sound_full : Prop :=
   ∀ (env : T2.Env) (K : Nat) (w : Int) (hs vs : List Int) (cmds : List InCmd)
     (paths : List (List (Nat × T2.Op))) (bytes : List Nat),
     encodeCharString K w hs vs cmds env.defaultWidth env.nominalWidth paths = some bytes →
     (∀ c ∈ encodeArgs K cmds, CmdDecodes c) → ∃ g, Spec.T2.interp env bytes = .ok g
+
+/-- List-level no-accumulation (corollary of `C04_no_accumulation`): drawing the commands `encodeArgs`
+produces, from a state at the encoder's idea of the current point, appends — command for command — the
+input commands with EVERY absolute coordinate (moveto, lineto, all three curveto points) within 2⁻¹⁷ of
+the input, independent of its index in the list, masks byte for byte; and every operand is read back.
+Hypothesis: every encoded step within ±32767 (`stepsSmall`, decidable; finding C04-bigstep). -/
+theorem C04_path_no_accumulation (K : Nat) (hK : 16 ≤ K) (cmds : List InCmd) (px py : Int) (s : St)
+    (hx : s.x = px) (hy : s.y = py) (h : stepsSmall K px py cmds = true) :
+    (∀ c ∈ encodeArgsFrom K px py cmds, CmdDecodes c) ∧
+    ∃ out, (drawCmds strict s (encodeArgsFrom K px py cmds)).cmds = s.cmds ++ out ∧ CmdsClose K out cmds :=
+  drawCmds_close K hK cmds px py s hx hy h
+
+/-- C04, the round trip (decidable numeric hypotheses only).  For every glyph description that is well
+formed (`GlyphWF`: sub-paths start with a moveto; each mask has exactly ⌈nStems/8⌉ bytes and there is a stem
+when there is a mask), whose encoded steps all lie within ±32767 (`stepsSmall` along the path, `Small` for
+width − nominal width, `hStemsSmall`/`vStemsSmall` for the stem deltas — the excluded class is exactly
+finding C04-bigstep), any number of stems of any resolution (chunking beyond 24 pairs), masks anywhere
+(also first: implicit vstem), any width, and EVERY choice of edge paths for which `encodeCharString` yields
+bytes: the specification interpreter returns a glyph `g` (so: no error, never more than 48 operands, legal
+operand counts, ended by endchar) with
+* the same commands, every coordinate within 2⁻¹⁷ regardless of position, masks byte for byte,
+* the same hstem and vstem lists, every edge within 2⁻¹⁷ regardless of position (`CloseList`),
+* the default width if the width equals it, else a width within 2⁻¹⁷ of the glyph's. -/
+theorem C04_glyph_roundtrip (env : T2.Env) (K : Nat) (hK : 16 ≤ K) (w : Int) (hs vs : List Int)
+    (cmds : List InCmd) (paths : List (List (Nat × T2.Op))) (bytes : List Nat)
+    (h : encodeCharString K w hs vs cmds env.defaultWidth env.nominalWidth paths = some bytes)
+    (hwf : GlyphWF hs vs cmds = true) (hsteps : stepsSmall K 0 0 cmds = true)
+    (hw : w ≠ env.defaultWidth * 2 ^ (K - 16) → Small K (w - env.nominalWidth * 2 ^ (K - 16)))
+    (hhs : hStemsSmall env K w hs = true) (hvs : vStemsSmall env K w hs vs = true) :
+    ∃ g, Spec.T2.interp env bytes = .ok g ∧ CmdsClose K g.cmds cmds ∧
+      CloseList K g.hstem hs ∧ CloseList K g.vstem vs ∧
+      g.hstem = decStems (hChunks env K w hs) ∧ g.vstem = decStems (vChunks env K w hs vs) ∧
+      g.width = (if w = env.defaultWidth * 2 ^ (K - 16) then env.defaultWidth
+        else (encNum (w - env.nominalWidth * 2 ^ (K - 16)) K).val + env.nominalWidth) ∧
+      (w ≠ env.defaultWidth * 2 ^ (K - 16) → Close K g.width w) :=
+  glyph_roundtrip env K hK w hs vs cmds paths bytes h hwf hsteps hw hhs hvs
+
+/-- Stems, no accumulation (holds since the repair of finding C04-stemaccum, repository commit b6e7b8c):
+for EVERY stem list — any resolution of the input (not only multiples of 2⁻¹⁶), any length, any chunking,
+with or without a width operand in the first chunk — whose encoded deltas are within ±32767
+(`stemChunksSmall`, decidable), the stem edges the decoder declares (`decStems`: running sums of the
+operands, restarting in every chunk) are, edge for edge, within 2⁻¹⁷ of the glyph's stem edges,
+independent of the index of the edge: each delta is taken from the DECODED previous edge. -/
+theorem C04_stems_no_accumulation (K : Nat) (hK : 16 ≤ K) (extra : Nat) (stems : List Int)
+    (hev : stems.length % 2 = 0) (hex : extra ≤ 1)
+    (hsm : stemChunksSmall K (stems.length + 1) extra stems = true) :
+    CloseList K (decStems (stemChunksFuel K (stems.length + 1) extra stems)) stems :=
+  decStems_close K hK _ extra stems (by omega) hev hex hsm
+
+/-- A chunk-independent sufficient condition for the step bound: every stem edge and every difference of
+consecutive edges within ±32766 (one unit of slack for the rounding of the previous edge). -/
+theorem C04_stems_small (env : T2.Env) (K : Nat) (hK : 16 ≤ K) (w : Int) (hs vs : List Int)
+    (hh : stemsSmall K hs = true) (hv : stemsSmall K vs = true) :
+    hStemsSmall env K w hs = true ∧ vStemsSmall env K w hs vs = true :=
+  stemsSmall_hv env K hK w hs vs hh hv
+
+/-- Stems that are multiples of 2⁻¹⁶ (`ms`, in 16.16 units; the glyph's list is `ms` scaled to 2^-K) are
+read back EXACTLY, for every chunking. -/
+theorem C04_stems_exact (K : Nat) (hK : 16 ≤ K) (extra : Nat) (ms : List Int) (hev : ms.length % 2 = 0)
+    (hex : extra ≤ 1)
+    (hsm : stemChunksSmall K (ms.length + 1) extra (ms.map (· * 2 ^ (K - 16))) = true) :
+    decStems (stemChunksFuel K (ms.length + 1) extra (ms.map (· * 2 ^ (K - 16)))) = ms :=
+  decStems_exact K hK _ extra ms (by omega) hev hex hsm
+
+/-- Finding C04-stemaccum (FIXED in b6e7b8c), kept as a statement about the OLD formula `stemChunkCodesOld`
+(`encodeNumber(x - prev); prev = x`, the delta taken from the unrounded previous edge): hstem edges
+1+7·2⁻²⁰, 2+14·2⁻²⁰, 3+21·2⁻²⁰, 4+28·2⁻²⁰ were written as "1 1 1 1 hstem" and read back as 1, 2, 3, 4, the
+fourth edge off by 28·2⁻²⁰ > 2⁻¹⁷; the repaired formula writes "1 1.0000153 1 1.0000153" and every edge is
+within 2⁻¹⁷ (here: 5·2⁻²⁰ at most). -/
+theorem C04_stems_accumulate_old :
+    stemPairs 0 (vals (stemChunkCodesOld 20 0 [1048583, 2097166, 3145749, 4194332])) =
+      [65536, 131072, 196608, 262144] ∧
+    ¬ Close 20 262144 4194332 ∧
+    decStems (hChunks ⟨[], [], 0, 0⟩ 20 0 [1048583, 2097166, 3145749, 4194332]) =
+      [65536, 131073, 196609, 262146] ∧
+    Close 20 262146 4194332 := by
+  decide
+
+/-- non-vacuity of `C04_stems_no_accumulation`: the stems of the former finding (multiples of 2⁻²⁰) meet the
+step bound -/
+example : stemChunksSmall 20 5 0 [1048583, 2097166, 3145749, 4194332] = true ∧
+    stemChunksSmall 20 5 1 [1048583, 2097166, 3145749, 4194332] = true := by decide
+
+/-- The unguarded statement `C04_glyph_sound_full` (no `GlyphWF`) is false: a hintmask in a glyph without
+stems is emitted verbatim ("hintmask 0x80 0 vmoveto endchar") and rejected by the specification
+interpreter (and by the real decoder: observed).  The hypothesis `GlyphWF` is necessary. -/
+theorem C04_glyph_sound_unguarded_fails : ¬ C04_glyph_sound_full := by
+  intro h
+  obtain ⟨g, hg⟩ := h ⟨[], [], 0, 0⟩ 20 0 [] [] [.mask false [128], .moveTo 0 0] [] [19, 128, 139, 4, 14]
+    (by decide) (by
+      intro c hc
+      have : c = .mask false [128] ∨ c = .move (encNum 0 20) (encNum 0 20) := by
+        simpa [encodeArgs, encodeArgsFrom] using hc
+      rcases this with rfl | rfl
+      · trivial
+      · exact ⟨C04_operand_decodes 0 20 (by decide), C04_operand_decodes 0 20 (by decide)⟩)
+  revert hg
+  have : Spec.T2.interp ⟨[], [], 0, 0⟩ [19, 128, 139, 4, 14] = .err "early" := by decide
+  rw [this]
+  intro hg
+  cases hg
+
+/-- non-vacuity of `C04_glyph_roundtrip`: width ≠ default, 25 hstem pairs (two chunks: 23 pairs + width,
+then 2 pairs), fine stems allowed; 1 vstem pair whose operator is omitted before the leading hintmask (4 mask bytes for 26
+stems), a cntrmask inside the path -/
+def exHs : List Int := (List.range 50).map (fun i => ((10 * i : Nat) : Int) * 1048576)
+def exCmds : List InCmd :=
+  [.mask false [255, 255, 255, 192], .moveTo 1048576 2097152, .lineTo 5242880 2097152,
+   .mask true [1, 2, 3, 4], .lineTo 5242880 (-3145728)]
+
+example : GlyphWF exHs [0, 3145728] exCmds = true ∧ stepsSmall 20 0 0 exCmds = true ∧
+    stemsSmall 20 exHs = true ∧ stemsSmall 20 [0, 3145728] = true ∧
+    hStemsSmall ⟨[], [], 0, 0⟩ 20 524288000 exHs = true ∧ vStemsSmall ⟨[], [], 0, 0⟩ 20 524288000 exHs [0, 3145728] = true ∧
+    Small 20 (524288000 - 0 * 2 ^ (20 - 16)) ∧
+    (encodeCharString 20 524288000 exHs [0, 3145728] exCmds 0 0 [[(1, .hlineto)], [(1, .vlineto)]]).isSome = true ∧
+    ((hChunks ⟨[], [], 0, 0⟩ 20 524288000 exHs).map List.length) = [46, 4] := by
+  decide
 
 /-- non-vacuity: for "5 0 lineto-delta, 0 7, 3 4" the proposals at node 0 are rlineto over 1 and 2… -/
 def exSegs : List Seg :=
